@@ -120,6 +120,15 @@ CHECKS["C05"] = dict(
    note="Trusted: Coq kernel+vm_compute; hand transcription in Gate/Model.v; gen/Tables.v translator for the support flags; traits not enumerated; "
         "self-parameter and ZST-method rules modelled but not enumerated.",
    design="§5 C05")
+CHECKS["C15"] = dict(
+   text="Partial. Coq proves that everything the gate accepts as an output, a non-callback input or a return type is at most three constructors deep "
+        "(C15_outputs_enumerated / C15_inputs_enumerated / C15_returns_enumerated via the Gate equivalence theorems), so the finite witness enumeration "
+        "contains every accepted shape literally. Each witness (position x type, ~1.9k) and a set of grammar-wide generated modules is run through the "
+        "real CLI for all seven backends and config variants; any panic after lowering is a violation keyed by backend and panic site. 18 pre-existing "
+        "panic sites are recorded in known_findings.txt; the optional-slice/Kotlin crash was repaired in /repo.",
+   note="Partial: the backends' dispatch code (60+ unreachable!/panic! sites) is not modelled; absence of panics is only observed on the witnesses, and "
+        "uniformity within a shape class is assumed. Trusted: Coq kernel, Gate transcription, CLI runner.",
+   design="§5 C15")
 NOT_YET = {
 }
 ALL = [f"C{i:02d}" for i in range(1, 18)]
